@@ -47,6 +47,7 @@ type Step struct {
 	Thread int
 	Op     string
 	Obj    int
+	Aux    bool // operation on an object outside the check's focus set
 }
 
 // PanicInfo describes a panic that escaped a controlled thread.
@@ -70,6 +71,7 @@ type Result struct {
 	Trace      []Step
 	Deadlock   bool // quiescent with unfinished non-daemon threads
 	Blocked    []string
+	BlockedStacks []string // where the unfinished harness threads were blocked (deadlocks only)
 	Horizon    bool // MaxSteps reached (livelock suspicion)
 	Panics     []PanicInfo
 	Races      []RaceInfo
@@ -163,11 +165,15 @@ func Run(cfg Config, body func()) *Result {
 		}
 		if !t.daemon && !x.res.Horizon {
 			x.res.Deadlock = true
-			if t.pend != nil {
-				x.res.Blocked = append(x.res.Blocked, fmt.Sprintf("T%d:%s#%d", t.id, t.pend.name, t.pend.obj))
-			} else {
-				x.res.Blocked = append(x.res.Blocked, fmt.Sprintf("T%d:?", t.id))
-			}
+		}
+		tag := ""
+		if t.daemon {
+			tag = "(internal)"
+		}
+		if t.pend != nil {
+			x.res.Blocked = append(x.res.Blocked, fmt.Sprintf("T%d%s:%s#%d", t.id, tag, t.pend.name, t.pend.obj))
+		} else {
+			x.res.Blocked = append(x.res.Blocked, fmt.Sprintf("T%d%s:?", t.id, tag))
 		}
 		x.cur = t
 		t.wake <- struct{}{}
@@ -343,7 +349,7 @@ func (x *Exec) pick(self *thread) *thread {
 		}
 	}
 	if chosen.pend != nil {
-		x.trace = append(x.trace, Step{chosen.id, chosen.pend.name, chosen.pend.obj})
+		x.trace = append(x.trace, Step{chosen.id, chosen.pend.name, chosen.pend.obj, chosen.pend.nopre})
 	}
 	return chosen
 }
@@ -370,6 +376,9 @@ func (x *Exec) point(op *pendingOp) {
 }
 
 func (x *Exec) exitAborted() {
+	if t := x.cur; t != nil && !t.daemon && x.res.Deadlock && len(x.res.BlockedStacks) < 4 {
+		x.res.BlockedStacks = append(x.res.BlockedStacks, fmt.Sprintf("T%d blocked at:\n%s", t.id, trimStack(string(debug.Stack()))))
+	}
 	runtime.Goexit()
 }
 
@@ -504,7 +513,7 @@ func Note(label string) {
 	if x == nil || x.aborting || x.cur == nil {
 		return
 	}
-	x.trace = append(x.trace, Step{x.cur.id, "note:" + label, -1})
+	x.trace = append(x.trace, Step{x.cur.id, "note:" + label, -1, false})
 }
 
 // TraceLen returns the number of trace steps recorded so far in the running execution.
